@@ -20,29 +20,39 @@ SCENARIOS = {
 
 # property -> scenarios per tier (model + replay), driver profiles (profile, histories quick, histories thorough, steps)
 PROPS = {
-    "C01": dict(quick=["book1", "book2", "fee", "feebig", "frac", "marker", "mig"], thorough=["book1", "book2", "fee", "feebig", "feearith", "frac", "marker", "mig", "cfg"],
+    "C01": dict(quick=["book1", "fee", "frac", "marker", "mig"],
+                thorough=["book1", "book2", "fee", "feebig", "feearith", "frac", "marker", "mig", "cfg"],
                 drive=[("mixed", 2, 40, 250)]),
-    "C02": dict(quick=["book1", "fee", "feearith", "auth", "marker", "frac", "mig"], thorough=["book1", "fee", "feearith", "feebig", "auth", "marker", "frac", "mig"],
+    "C02": dict(quick=["book1", "fee", "feearith", "auth", "marker", "mig"],
+                thorough=["book1", "fee", "feearith", "feebig", "auth", "marker", "frac", "mig"],
                 drive=[("match", 2, 40, 250)]),
-    "C03": dict(quick=["book1", "book2", "frac"], thorough=["book1", "book2", "frac", "fee"], drive=[("match", 2, 40, 250)]),
-    "C04": dict(quick=["book1", "fee", "feebig", "marker", "auth", "frac", "mig"], thorough=["book1", "fee", "feebig", "marker", "auth", "frac", "mig"],
+    "C03": dict(quick=["book1", "book2", "frac"], thorough=["book1", "book2", "frac", "fee", "cfg"],
+                drive=[("match", 2, 40, 250)]),
+    "C04": dict(quick=["book1", "fee", "feebig", "marker", "mig"],
+                thorough=["book1", "fee", "feebig", "marker", "auth", "frac", "mig"],
                 drive=[("reverse", 2, 40, 250)]),
-    "C05": dict(quick=["auth"], thorough=["auth", "cfg"], drive=[("mixed", 2, 40, 250)]),
-    "C06": dict(quick=["book1", "fee", "frac", "marker", "mig"], thorough=["book1", "fee", "frac", "marker", "mig", "book2"],
+    "C05": dict(quick=["auth"], thorough=["auth", "cfg", "mig"], drive=[("mixed", 2, 40, 250)]),
+    "C06": dict(quick=["book1", "fee", "frac", "marker", "mig"],
+                thorough=["book1", "fee", "feebig", "frac", "marker", "mig", "book2"],
                 drive=[("mixed", 2, 40, 250)]),
-    "C07": dict(quick=["admit", "feearith"], thorough=["admit", "feearith", "book1"], drive=[("create", 2, 40, 250)]),
-    "C08": dict(quick=["book1", "marker", "admit"], thorough=["book1", "marker", "admit"], drive=[("conv", 2, 40, 250)]),
-    "C09": dict(quick=["fee", "feebig", "feearith", "book1", "frac"], thorough=["fee", "feebig", "feearith", "book1", "frac", "mig"], drive=[("fee", 2, 40, 250)]),
+    "C07": dict(quick=["admit", "feearith"], thorough=["admit", "feearith", "book1", "fee"], drive=[("create", 2, 40, 250)]),
+    "C08": dict(quick=["book1", "marker", "admit"], thorough=["book1", "marker", "admit", "frac"], drive=[("conv", 2, 40, 250)]),
+    "C09": dict(quick=["fee", "feebig", "feearith", "frac"], thorough=["fee", "feebig", "feearith", "book1", "frac", "mig"],
+                drive=[("fee", 2, 40, 250)]),
     "C10": dict(quick=["marker"], thorough=["marker", "admit"], drive=[("mixed", 2, 40, 250)]),
-    "C11": dict(quick=["book2", "book1", "frac", "admit"], thorough=["book2", "book1", "frac", "admit"], drive=[("mixed", 2, 40, 250)]),
+    "C11": dict(quick=["book2", "book1", "frac", "admit"], thorough=["book2", "book1", "frac", "admit", "fee"],
+                drive=[("mixed", 2, 40, 250)]),
     "C12": dict(quick=["cfg"], thorough=["cfg"], drive=[("modify", 2, 40, 250)]),
-    "C13": dict(quick=["inst", "instbig", "admit", "frac"], thorough=["inst", "instbig", "admit", "frac"], drive=[("create", 1, 20, 150)]),
+    "C13": dict(quick=["inst", "instbig", "admit", "frac"], thorough=["inst", "instbig", "admit", "frac"],
+                drive=[("create", 1, 20, 150)]),
     "C14": dict(quick=["mig"], thorough=["mig", "migarb"], drive=[("migrate", 2, 40, 250)]),
     "C15": dict(quick=["mig", "migarb"], thorough=["mig", "migarb"], drive=[("migrate", 2, 40, 250)]),
-    "C16": dict(quick=["book1", "book2", "mig"], thorough=["book1", "book2", "mig"], drive=[("mixed", 2, 40, 250)]),
-    "C17": dict(quick=["book1", "fee", "marker", "auth", "mig", "frac"], thorough=["book1", "fee", "feearith", "marker", "auth", "mig", "frac"],
+    "C16": dict(quick=["book1", "book2", "mig"], thorough=["book1", "book2", "mig", "frac"], drive=[("mixed", 2, 40, 250)]),
+    "C17": dict(quick=["book1", "fee", "marker", "mig", "frac"],
+                thorough=["book1", "fee", "feearith", "marker", "auth", "mig", "frac"],
                 drive=[("mixed", 2, 40, 250)]),
 }
+
 ALL_PROPS = ["C%02d" % i for i in range(1, 18)]
 
 LEVEL_TEXT = (
